@@ -25,7 +25,9 @@ def run(ctx):
     N = 24 if ctx.quick else 40
     physics = [
         dict(label="bar/static/fixed", dev="bar", current=3.0, field=0.4, adaptive=False, dt=dt, solve_time=N * dt - dt / 2),
-        dict(label="barhole/adaptive", dev="barhole", current=6.0, field=0.8, adaptive=True, dt=dt, dt_max=0.05, solve_time=0.9),
+        # strongly driven: the adaptive step really varies (retries, window mean below the clip) — guarded below
+        dict(label="bar/adaptive", dev="bar", current=10.0, field=1.5, adaptive=True, dt=2.0 ** -6, dt_max=2.0, window=5,
+             solve_time=(3.0 if ctx.quick else 8.0)),
     ]
     physics.append(dict(label="bar/screening", dev="bar", current=2.0, field=0.5, adaptive=False, dt=dt,
                         solve_time=16 * dt - dt / 2, screening=True))
@@ -73,6 +75,11 @@ def run(ctx):
                           {"run": run_id, "key": f"frame@step{fr['step']}", "q": [intern(fr["hash"])]})
             ev.append({"run": run_id, "key": "mesh", "q": [intern(r["mesh"])]})
             ctx.note_case((ph["label"], run_id), len(r["frames"]) >= 2)
+        if ph.get("adaptive"):
+            dts = {d for r, f in zip(results, fam) if f == ph["label"] for fr in r["frames"] for d in fr.get("dts", [])}
+            ctx.cov.setdefault("distinct_step_sizes", {})[ph["label"]] = len(dts)
+            if len(dts) < 5:
+                raise core.MachineryFailure(f"C11: adaptive family {ph['label']} has only {len(dts)} distinct step sizes (vacuous)")
         traces.append({"tol": 0, "minruns": 2, "ev": ev, "label": ph["label"]})
         ctx.sample({"family": ph["label"], "runs": nruns, "observations": len(ev), "first_observations": ev[:6]}, limit=4)
     accepted = twin.validate_twin(ctx, traces, "C11")
